@@ -53,6 +53,8 @@ func main() {
 		os.Exit(cmdVC(os.Args[2:]))
 	case "audit":
 		os.Exit(cmdAudit(os.Args[2:]))
+	case "sweep":
+		os.Exit(cmdSweep(os.Args[2:]))
 	case "sweepgen":
 		os.Exit(cmdSweepGen(os.Args[2:]))
 	default:
@@ -907,6 +909,79 @@ func cmdAudit(args []string) int {
 	fmt.Printf("audit: %d contracts with a body, %d problems\n", n, len(problems))
 	if len(problems) > 0 {
 		return 1
+	}
+	return 0
+}
+
+// cmdSweep is the zero-annotation sweep: for every module function WITHOUT a contract (in the packages matching
+// -pkg) it generates the safety obligations of the listed kinds with no precondition at all and prints the ones the
+// solver refutes. The output is a list of candidates to read, not a verdict (no precondition means many are
+// unreachable); nothing registered in MANIFEST depends on it.
+func cmdSweep(args []string) int {
+	fs := flag.NewFlagSet("sweep", flag.ExitOnError)
+	repo := fs.String("repo", "/repo", "")
+	verif := fs.String("verif", "/verif", "")
+	pkg := fs.String("pkg", "", "substring of the package path")
+	kinds := fs.String("kinds", "index out of range,slice bounds,type assertion,division by zero,nil map", "comma separated substrings of obligation texts")
+	fs.Parse(args)
+	P, err := loadAll(*repo, *verif)
+	if err != nil {
+		fmt.Fprintln(os.Stderr, err)
+		return 2
+	}
+	P.computeModsets()
+	var keys []string
+	for k, f := range P.Funcs {
+		if len(f.Blocks) > 0 && f.Pkg != nil && inModule(f.Pkg.Pkg) && !strings.Contains(k, "/mocks/") && strings.Contains(f.Pkg.Pkg.Path(), *pkg) {
+			if _, has := P.Spec.Contracts[k]; !has && len(P.Spec.Behaviors[k]) == 0 {
+				keys = append(keys, k)
+			}
+		}
+	}
+	sort.Strings(keys)
+	work, _ := os.MkdirTemp("", "gocv-sweep")
+	defer os.RemoveAll(work)
+	ks := strings.Split(*kinds, ",")
+	for _, k := range keys {
+		func() {
+			defer func() {
+				if r := recover(); r != nil {
+					fmt.Printf("SKIP %s: %v\n", shortKey(k), r)
+				}
+			}()
+			vc := NewVC(P, P.Funcs[k], "")
+			vc.safetyProp = true
+			vc.workDir = work
+			if err := vc.Generate(); err != nil {
+				fmt.Printf("SKIP %s: %v\n", shortKey(k), err)
+				return
+			}
+			vc.finish()
+			var sel []*Obligation
+			for _, o := range vc.obls {
+				if o.Kind != "safety" {
+					continue
+				}
+				for _, kk := range ks {
+					if strings.Contains(o.Detail, strings.TrimSpace(kk)) {
+						sel = append(sel, o)
+						break
+					}
+				}
+			}
+			if len(sel) == 0 {
+				return
+			}
+			if err := vc.Discharge(sel, work, 2000, 4000); err != nil {
+				fmt.Printf("SKIP %s: %v\n", shortKey(k), err)
+				return
+			}
+			for _, o := range sel {
+				if o.Result == "sat" {
+					fmt.Printf("REFUTED %s @%s:%d: %s\n", shortKey(k), filepathBase(o.Site.Filename), o.Site.Line, o.Detail)
+				}
+			}
+		}()
 	}
 	return 0
 }
